@@ -187,6 +187,25 @@ def t_funcdecl_then_regex(text, res):
     return False
 
 
+def t_function_statement_continued(text, res):
+    """a statement that starts with 'function' and goes on as an expression ('function f(){}, y',
+    'function f(){} in y', 'function(){}.x'): the texts on which the reference parser's outcome changes when its
+    switch for this known deviation is turned on"""
+    if 'function' not in text:
+        return False
+
+    def outcome(**kw):
+        try:
+            return refjs.canon(refjs.parse(text, **kw).tree)
+        except refjs.RefSyntaxError:
+            return None
+        except RecursionError:
+            return 'too_deep'
+    if res is not None:
+        return False        # derivable as it stands: the deviation does not decide anything here
+    return outcome(lenient_function_statement=True) is not None
+
+
 def t_accessor_name_layout(text, res):
     """an accessor property whose name is not an identifier written after
     exactly one white-space character (string / number names, several blanks,
